@@ -608,6 +608,13 @@ func (f *File) Write(p []byte) (n int, err error) {
 		return 0, err
 	}
 
+	if f.flags.Append {
+		// Every write on a handle opened with O_APPEND goes to the end of the file
+		if _, err := f.writeBuf.Seek(0, io.SeekEnd); err != nil {
+			return 0, err
+		}
+	}
+
 	n, err = f.writeBuf.Write(p)
 	if err != nil {
 		return 0, err
@@ -676,6 +683,13 @@ func (f *File) WriteString(s string) (ret int, err error) {
 
 	if err := f.enterWriteMode(); err != nil {
 		return 0, err
+	}
+
+	if f.flags.Append {
+		// Every write on a handle opened with O_APPEND goes to the end of the file
+		if _, err := f.writeBuf.Seek(0, io.SeekEnd); err != nil {
+			return 0, err
+		}
 	}
 
 	return f.writeBuf.Write([]byte(s))
